@@ -385,6 +385,12 @@ def run_shared_dir(base: Base, sc, d, log, stats):
     """two configurations that differ in exactly one field use the same cache directory, alternately: every request must return
     the data of *its* configuration, and the directory ends up holding one loadable file per configuration"""
     S = sc["cfg"]
+    if S is None:
+        # resolved at run time: the neighbour asks for exactly as many mazes as the request's filters let through
+        k = len(base.fresh["mazes"])
+        if k == base.cfg["n_mazes"] or k < 1:
+            return core.ok(log, stats={"not_judged_filters-keep-everything": 1}, nontrivial=None)
+        S = dict(base.cfg, n_mazes=k)
     gS = core.stage(st_golden, S, base.knobs)
     if gS["kind"] != "returned":
         return core.ok(log, stats={"not_judged_neighbour-generation-failed": 1}, nontrivial=None)
@@ -744,6 +750,8 @@ def scenarios_for(rng: random.Random, R: dict, layout: dict, tier: str) -> list:
     sc += fv
     # the same one-field neighbours, but as *independent users of the same cache directory*
     sc += [{"kind": "shared-dir", "field": x["field"], "cfg": x["cfg"], "same_process": rng.random() < 0.5} for x in fv if x["kind"] == "foreign"]
+    if R.get("applied_filters"):
+        sc += [{"kind": "shared-dir", "field": "n_mazes-survivors", "cfg": None, "same_process": sp} for sp in (False, True)]
     # multi-fault histories
     for _ in range(7 if tier == "quick" else 60):
         steps = []
